@@ -454,10 +454,44 @@ func (g *Gen) genTruncationHistory() {
 		// statistics whose little-endian bytes start like a well-formed block (04 02 = a zero-count block):
 		// a decoder that loses the end-of-input error inside a float64 payload then "succeeds" on the left-over
 		// bytes (seeded change C08e)
+		// The crafted values stay inside the history's index window: they are the current exact extremes with
+		// their low 24 mantissa bits replaced (a relative change of 2^-28, far below any alpha) and pushed outwards
+		// so that they ARE the new minimum / maximum. (Until round 12 they were 1+e, 65536+e, -(1+e) whatever the
+		// window: with a fine mapping whose window sits at the top of the range the cuts were then decoded into
+		// dense targets spanning 3.6e8 bins — minutes and 20 GB on both sides, found by an unchanged-tree run.)
 		lo := []uint64{0x0204, 0x020400, 0x0204, 0x0104}[r.Intn(4)]
-		for _, hi := range []uint64{0x3FF0000000000000, 0x40F0000000000000, 0xBFF0000000000000} {
-			if r.Bool(70) {
-				sg.add(1, math.Float64frombits(hi|lo), 1)
+		if e := sg.sh.sks[1]; e != nil && e.exact != nil && !e.poisoned {
+			craft := func(v float64, outwardsUp bool) (float64, bool) {
+				if v == 0 || math.IsNaN(v) || math.IsInf(v, 0) {
+					return 0, false
+				}
+				b := math.Float64bits(math.Abs(v))&^0xFFFFFF | lo
+				grow := outwardsUp == (v > 0) // the magnitude must not shrink (grow) or must not grow
+				if w := math.Float64frombits(b); grow && w < math.Abs(v) {
+					b += 1 << 24
+				} else if !grow && w > math.Abs(v) {
+					b -= 1 << 24
+				}
+				w := math.Copysign(math.Float64frombits(b), v)
+				if a := math.Abs(w); a < sg.m.MinIndexableValue()*1.001 || a > sg.m.MaxIndexableValue()*0.999 {
+					return 0, false
+				}
+				return w, true
+			}
+			if mx, err := e.exact.GetMaxValue(); err == nil && r.Bool(80) {
+				if w, ok := craft(mx, true); ok {
+					sg.add(1, w, 1)
+				}
+			}
+			if mn, err := e.exact.GetMinValue(); err == nil && r.Bool(80) {
+				if w, ok := craft(mn, false); ok {
+					sg.add(1, w, 1)
+				}
+			}
+			if r.Bool(50) { // the sum block: a value whose own bytes carry the pattern does not control the sum; keep one anyway
+				if w, ok := craft(sg.nextValue(), true); ok {
+					sg.add(1, w, 1)
+				}
 			}
 		}
 		g.stats["crafted-statistics"]++
